@@ -670,7 +670,17 @@ func (e *FuncEnc) encodeSlice(x *ssa.Slice) {
 			hi = sx("slen", s)
 		}
 		e.safety("slice", e.describe(x.X), and(sx("<=", "0", lo), sx("<=", lo, hi), sx("<=", hi, sx("slen", s))), x.Pos())
-		e.setVal(x, "Str", sx("ssub", s, lo, hi))
+		if v, ok := e.strView[x.X]; ok {
+			// a slice of a slice is a view of the same root string
+			nlo := e.define("vlo", "Int", sx("+", v.lo, lo))
+			nhi := e.define("vhi", "Int", sx("+", v.lo, hi))
+			e.setVal(x, "Str", sx("ssub", v.root, nlo, nhi))
+			e.strView[x] = strView{root: v.root, lo: nlo, hi: nhi}
+			e.assume(e.curReach, and(sx("<=", "0", nlo), sx("<=", nlo, nhi), sx("<=", nhi, sx("slen", v.root))))
+		} else {
+			e.setVal(x, "Str", sx("ssub", s, lo, hi))
+			e.strView[x] = strView{root: s, lo: lo, hi: hi}
+		}
 	case *types.Slice:
 		s := e.v(x.X)
 		base, off, ln, cp := e.sliceParts(s)
@@ -755,6 +765,7 @@ func (e *FuncEnc) encodeReturn(x *ssa.Return) {
 		rs = append(rs, e.v(r))
 	}
 	e.results = rs
+	e.curRet = x
 	e.checkEnsures(x)
 	if e.OnReturn != nil {
 		e.OnReturn(e, x, rs)
